@@ -43,19 +43,32 @@ def _partition(case, prog):
     return gidx, groups
 
 
-def common_through_r(case):
-    """Known finding `r-drops-common-symbols`: a COMMON symbol referenced from an object that goes
-    through `wild -r` (the owning TU's init function always references it)."""
+GOT_BASE_REFS = {"gotoff64", "got64", "pltoff64"}     # their code references _GLOBAL_OFFSET_TABLE_
+
+
+def _realise(case):
     mode = MODES[case["mode"] % len(MODES)]
-    prog = progen.realise(case["prog"], [mode])
+    return mode, progen.realise(case["prog"], [mode], rare_refs=GOT_BASE_REFS)
+
+
+def known_r_domain(case):
+    """Exact domains of the two known `wild -r` findings.
+    r-drops-common-symbols: a COMMON symbol is referenced from an object that goes through `wild -r`
+      (the owning TU's init function always references it).
+    r-drops-linker-defined-symbols: an object going through `wild -r` references a linker-defined
+      symbol (here: _GLOBAL_OFFSET_TABLE_, via the GOTOFF64/GOT64/PLTOFF64 sequences)."""
+    mode, prog = _realise(case)
     gidx, _ = _partition(case, prog)
     for dd in prog.defs:
         if dd["kind"] == "common" and gidx[dd["tu"]] >= 0:
-            return True
+            return "r-drops-common-symbols"
     for st_ in prog.sites:
         if prog.defs[st_["tgt"]]["kind"] == "common" and gidx[st_["tu"]] >= 0:
-            return True
-    return False
+            return "r-drops-common-symbols"
+    for st_ in prog.sites:
+        if st_["ref"] in GOT_BASE_REFS and gidx[st_["tu"]] >= 0:
+            return "r-drops-linker-defined-symbols"
+    return None
 
 
 class C27(Check):
@@ -81,13 +94,12 @@ class C27(Check):
         })
 
     def excluded_by_construction(self, case):
-        return "r-drops-common-symbols" if common_through_r(case) else None
+        return known_r_domain(case)
 
     @progen.shrink_budget(45)
     def run_case(self, case, ctx):
         d = ctx.dir
-        mode = MODES[case["mode"] % len(MODES)]
-        prog = progen.realise(case["prog"], [mode])
+        mode, prog = _realise(case)
         if not prog.sites:
             raise Discard("no valid site")
         em = prog.emit(d)
@@ -108,7 +120,7 @@ class C27(Check):
         # partition
         gidx, groups_i = _partition(case, prog)
         groups = {g: [objs[i] for i in m] for g, m in groups_i.items()}
-        known_common = common_through_r(case)
+        known = known_r_domain(case)
         ropt = R_OPTS[case["ropt"] % len(R_OPTS)]
         nest = case["nest"] and len(groups) >= 2
 
@@ -152,10 +164,10 @@ class C27(Check):
             if lfail is None:
                 s2, out2, rc2 = progen.behaviour("wild", mode, lfinal, ctx, "lpart", libs=em["libs"])
                 step = "r-step" if (s2 == "ok" and (out2, rc2) == (expected, exp_rc)) else "final-step"
-            if known_common and step == "r-step":
-                raise Violation("r-drops-common-symbols",
-                                f"wild -r drops COMMON symbols (relocations against them get symbol index 0); final link "
-                                f"{'fails' if s != 'ok' else 'misbehaves'}: {out[-300:]}", {"groups": groups, "mode": mode})
+            if known and step == "r-step":
+                raise Violation(known,
+                                f"wild -r drops COMMON / linker-defined symbols (relocations against them get symbol index 0); "
+                                f"final link {'fails' if s != 'ok' else 'misbehaves'}: {out[-300:]}", {"groups": groups, "mode": mode})
             if s != "ok":
                 raise Violation(f"partial-link-then-link-fails:{step}",
                                 f"direct wild link works, but linking wild's -r outputs fails ({mode}, groups {groups}, nest {nest}): {out[-400:]}",
